@@ -207,7 +207,7 @@ fn run_case_inner(op: &str, inp: &Value) -> String {
                     tol, gp_state_coq(&st, d1), cfl(st.2), cfllist(&x[..d1]), cfllist(&x[d1..]), cfllist(&y),
                     cfllist(&z[..d1]), cfllist(&z[d1..]), cfllist(&yz), cfllist(&diag))
         }
-        "gp_gradp" => {
+        "gp_gradp" | "gp_gradp_model" => {
             // the cone is first scaled at zprev (this fills the stored Hessian vectors), then
             // gradient_primal(s) is evaluated: the result must not depend on zprev
             let (al, s, zprev) = (fv(&inp["alpha"]), fv(&inp["s"]), fv(&inp["zprev"]));
@@ -217,7 +217,13 @@ fn run_case_inner(op: &str, inp: &Value) -> String {
             if zprev.len() == n { k.update_scaling(&zprev, &zprev, 1.0, ScalingStrategy::Dual); }
             let mut g = vec![0.0; n];
             k.verif_gradient_primal(&mut g, &s);
-            format!("(c_gp_gradp {} {} {} {} {} {})", cfl(f(&inp["tol"])), cfllist(&al), cfllist(&s[..d1]), cfllist(&s[d1..]), cfllist(&g[..d1]), cfllist(&g[d1..]))
+            if op == "gp_gradp_model" {
+                // tie of the model to the code as it is: the w-part is a multiple of the stored vector r
+                let stored_r = k.verif_state().5;
+                format!("(c_gp_gradp_model {} {} {} {} {} {} {})", cfl(f(&inp["tol"])), cfllist(&al), cfllist(&s[..d1]), cfllist(&s[d1..]), cfllist(&stored_r), cfllist(&g[..d1]), cfllist(&g[d1..]))
+            } else {
+                format!("(c_gp_gradp {} {} {} {} {} {})", cfl(f(&inp["tol"])), cfllist(&al), cfllist(&s[..d1]), cfllist(&s[d1..]), cfllist(&g[..d1]), cfllist(&g[d1..]))
+            }
         }
         "gp_unit" => {
             let al = fv(&inp["alpha"]);
@@ -427,6 +433,7 @@ fn generate(sink: &mut CaseSink, seed: u64, thorough: bool) -> BTreeMap<String, 
         let m2 = g.margin(); let s = g.gp_point(&al, d2, false, m2);
         let zprev = if g.rng.chance(3, 4) { g.gp_point(&al, d2, true, 0.5) } else { vec![] };
         emit(sink, &mut g, "gp_gradp", json!({"alpha": al, "s": s, "zprev": zprev, "tol": 1e-6}), "gradp");
+        emit(sink, &mut g, "gp_gradp_model", json!({"alpha": al, "s": s, "zprev": zprev, "tol": 1e-6}), "gradp");
     }
     g.stats
 }
